@@ -147,6 +147,16 @@ def eq_values(I, st, a, b):
         return seq_eq(I, st, list(a), list(b))
     if isinstance(a, tuple) or isinstance(b, tuple):
         return False
+    if (isinstance(a, Ref) and st.get(a).kind == "obj") or (isinstance(b, Ref) and st.get(b).kind == "obj"):
+        # an element / value / key comparison inside a container comparison, `in`, list.index/count/remove ...: CPython
+        # (PyObject_RichCompareBool) answers True for the SAME object and otherwise calls the objects' own __eq__
+        # (obj_has -> class_lookup refuses the __eq__ that @dataclass generates: Unsupported)
+        if not (isinstance(a, Ref) and isinstance(b, Ref) and a.id == b.id):
+            if obj_has(I, st, a, "__eq__") is not None or obj_has(I, st, b, "__eq__") is not None:
+                outs = list(compare(I, st, "Eq", a, b))
+                if len(outs) != 1 or isinstance(outs[0][1], Exc) or outs[0][0] is not st:
+                    raise Unsupported("== inside a container comparison through a user-defined __eq__ that forks or raises")
+                return outs[0][1]
     if isinstance(a, Ref) and isinstance(b, Ref):
         ea, eb = st.get(a), st.get(b)
         if ea.kind != eb.kind:
